@@ -48,16 +48,17 @@ func NewSymbols(n int) *Symbols {
 	}
 	// addresses that are not 20 bytes long (nobody holds a key for them: they are only ever named — as a stream receiver, a
 	// transfer recipient, a whitelisted address): L0, L1 are 32-byte module-derived style addresses, L2 shares its first 20
-	// bytes with L1, L3 is those 20 bytes as an address of its own
+	// bytes with L1, L3 is those 20 bytes as an address of its own, L4 the last 20 bytes of L1
 	l0 := address.Module("verif-long", []byte{0})
 	l1 := address.Module("verif-long", []byte{1})
 	l2 := append(append([]byte{}, l1[:20]...), []byte{0xee, 0xee, 0xee, 0xee, 0xee, 0xee, 0xee, 0xee, 0xee, 0xee, 0xee, 0xee}...)
 	s.Mods["L0"], s.Mods["L1"], s.Mods["L2"], s.Mods["L3"] = l0, l1, sdk.AccAddress(l2), sdk.AccAddress(append([]byte{}, l1[:20]...))
+	s.Mods["L4"] = sdk.AccAddress(append([]byte{}, l1[12:]...)) // the last 20 bytes of L1 as an address of its own
 	return s
 }
 
 // LongTokens lists the tokens of the addresses that are not key-derived (see NewSymbols).
-var LongTokens = []string{"L0", "L1", "L2", "L3"}
+var LongTokens = []string{"L0", "L1", "L2", "L3", "L4"}
 
 // ModuleTokens lists the module account tokens in token order.
 var ModuleTokens = []string{"Mbond", "Mdist", "Ment", "Mfee", "Mgov", "Mnbond", "Mstr", "Mxfer"}
